@@ -56,7 +56,7 @@ REQUIRED_COUNTERS = ["oracle_evals", "started_requests", "terminal_close", "term
                      "body_prefix_evals"]
 SHARD_TIMEOUT = {"quick": 240, "thorough": 3000}
 
-HANDLERS = ["raw_sync", "raw_async", "app_sync", "app_async", "app_stream"]
+HANDLERS = ["raw_sync", "raw_async", "app_sync", "app_async", "app_stream", "raw_early", "raw_early_async"]
 REQ_FAULTS = ["close", "reset", "half", "shutdown"]
 BIG = b"x" * 1500000      # larger than the AF_UNIX socket buffer: stays in the write buffer while the peer does not read
 RESP_POINTS = ["before_handler", "handler_awaits", "after_flush", "finish_undrained", "between_pipelined"]
@@ -176,8 +176,8 @@ class Gate:
 
 
 class RawDelegate(httputil.HTTPServerConnectionDelegate):
-    def __init__(self, gate, asynchronous, mode, slow=False):
-        self.gate, self.asynchronous, self.mode, self.slow = gate, asynchronous, mode, slow
+    def __init__(self, gate, asynchronous, mode, slow=False, early=False):
+        self.gate, self.asynchronous, self.mode, self.slow, self.early = gate, asynchronous, mode, slow, early
 
     def start_request(self, server_conn, request_conn):
         return RawMsg(self, request_conn)
@@ -191,9 +191,23 @@ class RawMsg(httputil.HTTPMessageDelegate):
         self.o, self.conn = owner, conn
 
     def headers_received(self, start_line, headers):
+        if self.o.early:
+            # answers from headers_received, before any of the request body was consumed
+            self.responded = True
+            if self.o.asynchronous:
+                return self._early()
+            self._write_all()
+            return None
         if self.o.asynchronous:
             return self._pause()
         return None
+
+    async def _early(self):
+        await settle()
+        try:
+            self._write_all()
+        except Exception as e:
+            self.o.gate.handler_events.append(("raw-early-exc", type(e).__name__))
 
     async def _pause(self):
         if self.o.slow:
@@ -207,6 +221,8 @@ class RawMsg(httputil.HTTPMessageDelegate):
         return None
 
     def finish(self):
+        if getattr(self, "responded", False):
+            return
         if self.o.asynchronous or self.o.mode not in ("plain", "big"):
             asyncio.ensure_future(self._respond())
         else:
@@ -316,6 +332,10 @@ def make_target(kind, gate, mode, slow=False):
         return RawDelegate(gate, False, mode)
     if kind == "raw_async":
         return RawDelegate(gate, True, mode, slow)
+    if kind == "raw_early":
+        return RawDelegate(gate, False, "plain", early=True)
+    if kind == "raw_early_async":
+        return RawDelegate(gate, True, "plain", early=True)
     return make_app(kind, gate, mode, slow)
 
 
@@ -413,6 +433,9 @@ def _gen_cases_one(spec):
 
 
 def directed_cases():
+    # delegate answers from headers_received while the whole body is already buffered
+    yield {"base": 2, "name": "early-response-body-buffered", "offset": 10 ** 6, "fault": "half", "handler": "raw_early", "phase": "request", "cuts": "whole"}
+    yield {"base": 4, "name": "early-response-body-buffered-chunked", "offset": 10 ** 6, "fault": "half", "handler": "raw_early_async", "phase": "request", "cuts": "whole"}
     # shapes that historically double-notify: disconnect while an async data_received is suspended; EOF right
     # after a complete pipelined pair; shutdown while the handler awaits
     yield {"base": 2, "name": "post-cl", "offset": 60, "fault": "close", "handler": "app_stream", "phase": "request", "cuts": "whole"}
